@@ -122,6 +122,24 @@ def family(rng, series=None, load=None, f=None, V=None, neg=None):
                                                                       "load": load, "f": f}}
 
 
+def family_drop(spec):
+    """Series drop at the load current, from the actual (rounded) numbers of the spec -> (drop, |V|)."""
+    cm = S.comp_map(spec)
+    V = abs(cm["S"]["args"]["vo"])
+    I = cm["L"]["args"]["ii"]
+    drop = abs(cm["S"]["args"].get("rs", 0.0)) * I
+    if "X" in cm:
+        x = cm["X"]
+        a = x["args"]
+        if x["kind"] in ("RLoss", "PSwitch", "PMux"):
+            drop += abs(a.get("rs", 0.0)) * I
+        elif x["kind"] == "VLoss":
+            drop += abs(a["vdrop"])
+        elif x["kind"] == "Rectifier":
+            drop += 2 * abs(a["vdrop"]) if "vdrop" in a else 2 * abs(a.get("rs", 0.0)) * I
+    return drop, V
+
+
 def directed():
     import random
 
@@ -179,11 +197,14 @@ def run(ctx, case):
     if case["mode"] == "family":
         m = spec["_meta"]
         if m["load"] == "ILoad":
-            feasible = m["f"] < 1.0
-            if not feasible and case["maxiter"] >= 50:
+            drop, V = family_drop(spec)
+            feasible = drop < V * (1 - 1e-9)
+            if abs(drop - V) <= 1e-9 * V:
+                ctx.count("family", "boundary case drop == V (not judged)")
+            elif not feasible and case["maxiter"] >= 50:
                 ctx.check("overload.decided", st == "raise" and isinstance(df, (RuntimeError, ValueError)),
                           dict(det, family=m, outcome=outcome, why="no physical operating point: must raise"))
-            elif feasible and m["f"] <= 0.9 and case["maxiter"] >= 50 and tolv >= 1e-9:
+            elif feasible and drop <= 0.9 * V and case["maxiter"] >= 50 and tolv >= 1e-9:
                 ctx.check("overload.decided", st == "ok", dict(det, family=m, outcome=H.exc_sig(df) if st != "ok" else "",
                                                                why="operating point exists (constant current): must solve"))
         ctx.see("family", "%s/%s/f=%s" % (m["series"], m["load"], m["f"]))
